@@ -249,6 +249,74 @@ pub fn run<D: Dec>(rep: &mut Report) {
         }
     }
     rep.count(&format!("{}_ordered_pairs_of_distinct_make_sequences_on_one_decoder", set_name(set)), hist_pairs);
+    // ---- the "if and only if" after a history: on two decoders that have both been through the same one or two complete
+    //      sequences (keys still held, or just released), the make form of every sequence on the one and its break form on the
+    //      other must name the same key – press of K there ⇔ release of K here
+    {
+        let mut hist: Vec<Vec<u8>> = vec![];
+        for (_, s) in makes.iter() {
+            hist.push(s.clone());
+            hist.push(brk_of(s));
+        }
+        let n1 = hist.len();
+        for (_, a) in makes.iter() {
+            for (_, b) in makes.iter() {
+                let mut h = a.clone();
+                h.extend_from_slice(b);
+                hist.push(h);
+            }
+        }
+        let mut iff_checked = 0u64;
+        let mut reported = 0;
+        for (hi, h) in hist.iter().enumerate() {
+            // quick: every single-sequence history, and a seeded quarter of the two-sequence ones
+            if hi >= n1 && !rep.thorough() && (hi as u64 + rep.seed) % 4 != 0 {
+                continue;
+            }
+            let r = guarded(|| {
+                let mut bad = Vec::new();
+                let mut base = D::fresh();
+                let _ = run_on(&mut base, h);
+                for (_, s2) in makes.iter() {
+                    let mut d1 = base.clone();
+                    let mut d2 = base.clone();
+                    let m = run_on(&mut d1, s2);
+                    let b = run_on(&mut d2, &brk_of(s2));
+                    let down = match &m {
+                        Ok(Some(e)) if e.state == KeyState::Down => Some(e.code),
+                        _ => None,
+                    };
+                    let up = match &b {
+                        Ok(Some(e)) if e.state == KeyState::Up => Some(e.code),
+                        _ => None,
+                    };
+                    if down != up {
+                        bad.push((s2.clone(), m, b));
+                    }
+                }
+                bad
+            });
+            iff_checked += makes.len() as u64;
+            rep.evaluations += makes.len() as u64;
+            if let Ok(bad) = r {
+                for (s2, m, b) in bad {
+                    reported += 1;
+                    if reported > 40 {
+                        break;
+                    }
+                    rep.violate(
+                        format!("C19|{}|iff-with-history|hist=[{}]|seq=[{}]|make={}|break={}", set_name(set), hex_bytes(h), hex_bytes(&s2), res_str(&m), res_str(&b)),
+                        format!(
+                            "{}: after [{}], the make sequence [{}] decodes to {} but its break form [{}] (same history) decodes to {} – press and release are not paired",
+                            set_name(set), hex_bytes(h), hex_bytes(&s2), res_str(&m), hex_bytes(&brk_of(&s2)), res_str(&b)
+                        ),
+                        replay(set, &[h, &s2, &brk_of(&s2)], "Down(K) ⇔ Up(K)", &format!("{} / {}", res_str(&m), res_str(&b))),
+                    );
+                }
+            }
+        }
+        rep.count(&format!("{}_make_and_break_forms_compared_after_a_history_of_one_or_two_sequences", set_name(set)), iff_checked);
+    }
 
     // ---- in any history: a sequence in break form (Set 2: contains F0; Set 1: last byte has bit 7) never decodes as a
     //      press, and a sequence in make form never decodes as a release
